@@ -105,6 +105,118 @@ def open_with(config, app, t, d):
 read_file_var = X.read_decoded_var   # values of a dataset returned by open_dods_file / open_dods_url
 
 
+def observe_open_dods_file(raw, t):
+    """the real `open_dods_file` on a file holding `raw`.  Observed, not re-implemented: the text it hands to
+    `dds_to_dataset` (the `dds` its text-mode loop accumulated) and the reader it decodes from are captured by
+    wrapping the two names in pydap.client for the duration of the call.  Returns (dds text | None, canonical
+    decoding as `xdr-dec` prints it | None when the DDS parser itself refused the text)"""
+    import pydap.client as C
+
+    box = {}
+    real_dds, real_reader = C.dds_to_dataset, C.BytesReader
+
+    def spy_dds(text):
+        box["dds"] = text
+        out = real_dds(text)
+        box["parsed"] = True
+        return out
+
+    class SpyReader(real_reader):
+        def __init__(self, data):
+            real_reader.__init__(self, data)
+            box["reader"] = self
+
+    path = X.save_dods(raw)
+    C.dds_to_dataset, C.BytesReader = spy_dds, SpyReader
+    try:
+        try:
+            ds = C.open_dods_file(path)
+            vals = [read_file_var(ds[c[3] if c[0] == "b" else c[1]], c) for c in t[2]]
+            got = X.canon(t, vals)
+            impl = "(ok %s %s)" % (X.data_sexp(t, got), hexb(bytes(box["reader"].data)))
+        except Exception:
+            impl = "(err)" if box.get("parsed") else None
+    finally:
+        C.dds_to_dataset, C.BytesReader = real_dds, real_reader
+        os.unlink(path)
+    return box.get("dds"), impl
+
+
+def file_case(ctx, cases, t, raw, meta, label):
+    """one `xdr-file` correspondence case: Xdr.openDodsFile on the bytes of the file vs the real function"""
+    text, impl = observe_open_dods_file(raw, t)
+    if text is None or impl is None:
+        ctx.tags["open_dods_file:skipped-dds-unparsable"] += 1
+        return None
+    cases.append(("xdr-file %s %s" % (X.tmpl_sexp(t), hexb(raw)),
+                  "(%s) %s" % (hexb(text.encode("ascii")), impl), dict(meta, path="open_dods_file", label=label)))
+    # evidence keeps the 60 most frequent tags: the one-off files are counted per family, the label stays in `meta`
+    ctx.tags["open_dods_file:" + (label if label in ("focused", "last", "random") else
+                                  "crafted-" + label.split("-")[0])] += 1
+    return text, impl
+
+
+def adversarial_files(ctx, cases, rng):
+    """files built to separate `open_dods_file`'s text loop from what follows it: XDR parts that contain the marker,
+    newlines and bytes the ASCII text decoder drops; marker lines that only match after `str.strip()`; no marker at
+    all; non-ASCII bytes in the DDS text (outside C01's domain: the model must still predict the misplaced offset)"""
+    out = []
+    i32 = lambda n, k: ("b", "Int32", (), "%s%d" % (n, k), False)
+
+    def served(label, t, d):
+        app, r = B.serve(t, d)
+        out.append((label, t, d, r.body))
+
+    t1 = ("st", "d", [("b", "Byte", (8,), "a", False), ("b", "Int32", (), "b", False)])
+    served("data-contains-marker", t1, [[10, 68, 97, 116, 97, 58, 10, 200], -2147483638])
+    t2 = ("st", "d", [i32("v", 0), i32("v", 1), i32("v", 2)])
+    served("data-starts-with-marker", t2, [0x44617461, 0x3A0A4461, 0x74613A0A])
+    t3 = ("st", "d", [("b", "Int32", (8,), "a", False), ("b", "Byte", (5,), "b", False), ("b", "Byte", (), "c", False)])
+    served("data-newlines", t3, [[168430090] * 8, [10] * 5, 10])
+    t4 = ("st", "d", [("b", "UInt32", (6,), "a", False), ("b", "Byte", (7,), "b", False)])
+    for _ in range(6):
+        served("data-high-bytes", t4, [[rng.randrange(0x80808080, 2 ** 32) for _ in range(6)],
+                                      [rng.randrange(128, 256) for _ in range(7)]])
+    for _ in range(6):
+        t5 = ("st", "d", [("b", "Byte", (24,), "a", False)])
+        served("data-random-lines", t5, [[rng.choice([10, 10, 13, 32, 58, 68, 97, 116, 128, 255]) for _ in range(24)]])
+    # every byte value right after the marker
+    t6 = ("st", "d", [("b", "Byte", (256,), "a", False)])
+    served("data-all-bytes", t6, [list(range(256))])
+    for label, t, d, raw in out:
+        got = file_case(ctx, cases, t, raw, {"tmpl": B.pack(t), "data": B.pack(d), "cls": None}, label)
+        want = "(ok %s x)" % X.data_sexp(t, d)
+        if got is None or got[0].encode("ascii") != X.split_body(raw)[0] or got[1] != want:
+            ctx.oracle_fail("open_dods_file on a saved body: other DDS text / values than the server sent (%s)" % label,
+                            {"tmpl": B.pack(t), "data": B.pack(d), "config": "file"}, str(got)[:300], want[:300])
+    # -- files that are not bodies of this server: only model = implementation is asked
+    t7 = ("st", "d", [i32("v", k) for k in range(4)])
+    d7 = [0x0A446174, 0x613A0A00, 5, -1]
+    dds7 = X.ref_dds(t7).encode("ascii")
+    xdr7 = X.ref_enc(t7, d7)
+    meta = {"tmpl": B.pack(t7), "data": B.pack(d7), "cls": None}
+    crafted = [
+        ("marker-spaced", dds7 + b"  Data: \r\n" + xdr7),
+        ("marker-fs-us", dds7 + b"\x1cData:\x1f\n" + xdr7),
+        ("marker-vt-ff", dds7 + b"\x0bData:\x0c\n" + xdr7),
+        ("marker-high-bytes-dropped", dds7 + b"\xa0\x85Data:\xff\n" + xdr7),
+        ("marker-nul-not-stripped", dds7 + b"\x00Data:\n" + xdr7),
+        ("marker-last-line-no-newline", dds7 + b"Data:"),
+        ("marker-missing", dds7),
+        ("marker-missing-then-data", dds7 + xdr7),
+        ("marker-twice", dds7 + b"Data:\nData:\n" + xdr7),
+        ("data-truncated", dds7 + b"Data:\n" + xdr7[:-2]),
+        ("data-trailing", dds7 + b"Data:\n" + xdr7 + b"\nData:\n\x80"),
+        ("dds-non-ascii-name", dds7.replace(b"} d;", b"} d\xc3\xa9;") + b"Data:\n" + xdr7),
+        ("dds-non-ascii-many", dds7.replace(b"Dataset {", b"Dataset {\x80\x81\x82\x83\xfe") + b"Data:\n" + xdr7),
+        ("dds-cr-lf", dds7.replace(b"\n", b"\r\n") + b"Data:\n" + xdr7),
+        ("dds-blank-lines", b"\n \n" + dds7 + b"\n\t\n" + b"Data:\n" + xdr7),
+        ("empty-file", b""),
+    ]
+    for label, raw in crafted:
+        file_case(ctx, cases, t7, raw, meta, label)
+
+
 def declared_ok(v, t, probs, path=""):
     """the client-side declaration carries the source's DAP2 type and shape"""
     name = t[3] if t[0] == "b" else t[1]
@@ -199,6 +311,13 @@ def check(ctx, t, d, configs, cases, where):
         except Exception:
             impl = "(err)"
         cases.append(("xdr-dec %s %s" % (ts, hexb(xdr)), impl, meta))
+        if "file" in configs:
+            # the same body saved and reopened: Xdr.openDodsFile (text loop, offset, binary re-read) vs open_dods_file
+            got = file_case(ctx, cases, t, raw, meta, where)
+            if got is not None and got[0].encode("ascii") != dds and cls is None:
+                ctx.oracle_fail("open_dods_file hands another text to the DDS parser than the DDS the server sent",
+                                {"tmpl": B.pack(t), "data": B.pack(d), "config": "file"}, got[0][:300],
+                                dds.decode("ascii", "replace")[:300])
         # the data part in the chunks the server itself yields (one per block/record), through a StreamReader
         try:
             from pydap.handlers.dap import unpack_dap2_data
@@ -254,7 +373,12 @@ def explore(ctx, tier, search=False):
         d = X.gen_data(rng, t)
         configs = configs_all if i % 4 == 0 else ["app", rng.choice(configs_all[1:])]
         check(ctx, t, d, configs, cases, "random")
-    ctx.correspond("encImpl / decImpl vs the real body and the client's decoder", cases,
+    if not search:
+        adversarial_files(ctx, cases, ctx.rng("dods-files"))
+        nf = [c[2].get("label") for c in cases if c[0].startswith("xdr-file ")]
+        ctx.notes.append("xdr-file (Xdr.openDodsFile vs the real open_dods_file on a temp file): %d cases, %d of them crafted files"
+                         % (len(nf), sum(1 for x in nf if x not in ("focused", "last", "random"))))
+    ctx.correspond("encImpl / decImpl / openDodsFile vs the real body, the client's decoder and open_dods_file", cases,
                    known_class=lambda m: m.get("cls"))
 
 
@@ -268,13 +392,14 @@ def run(ctx):
                 "inf, -0.0, extremes, empty strings; int8 carried as Int16; ranks 0..3 incl. zero extents; "
                 "structures/grids to depth 3; numpy- and IterData-backed sequences with 0..4 records and one inner "
                 "sequence) x configurations {in-process app, app behind gzip, requests session on a WSGI adapter, "
-                "the same with gzip, CachedSession, saved .dods file, open_dods_url x {app, gzip, requests, requests+gzip, "
+                "the same with gzip, CachedSession, saved .dods file (open_dods_file also tied to Xdr.openDodsFile on the bytes of every such file and on crafted files: marker/newlines/bytes >= 128 inside the data, marker lines that match only after strip(), no marker, non-ASCII DDS), open_dods_url x {app, gzip, requests, requests+gzip, "
                 "1-byte chunks}, open_url behind a re-chunking hop x {1-byte, boundary before the last byte, random, "
                 "gzip+1-byte}}; a family whose last variable makes the decoder's final read zero-length; (value, representation) pairs as in C05 (dtype char, byte order, layout, scalar forms, str/bytes), each read back through the client; a dataset is non-trivial when it has an array, "
                 "a container or a sequence; distinct by (declaration, data)")
     ctx.assumptions = ["gzip.decompress(gzip.compress(b)) = b (hypothesis of C01_transport, exercised by the oracle)",
-                       "webob/requests/requests_cache plumbing, file I/O and the DDS text round trip (C07) are "
-                       "outside the theorems: covered by the oracle only"]
+                       "webob/requests/requests_cache plumbing, the operating system's file I/O and the DDS text round "
+                       "trip (C07) are outside the theorems: covered by the oracle only (what open_dods_file does with "
+                       "the bytes of the file is modelled: Xdr.openDodsFile, tied by the xdr-file correspondence)"]
     ctx.proof_phase()
     explore(ctx, ctx.tier)
     from props import c05_rep
